@@ -109,6 +109,7 @@ class Outcome:
         self.value = value        # substituted, canonical expr (or None)
         self.effects = tuple(effects)
         self.val = dict(val or {})
+        self.env = {}
 
     def __repr__(self):
         return '<%s %s | %s>' % (self.kind, txt(self.value) if self.value is not None else '', '; '.join(self.effects))
@@ -234,6 +235,7 @@ class Interp:
         out = self._block(self.body if self.body is not None else self.fi.node.body, env, effects, val)
         if out is None:
             out = Outcome('fall', None, effects, val)
+        out.env = {k: txt(self.canon.rename(v)) for k, v in env.items()}     # final bindings of the locals on this path
         return out
 
     def _c(self, expr, env):
@@ -546,3 +548,33 @@ def fmt_val(val):
         elif k[0] == 'raises':
             parts.append('[%s] -> %s' % (k[1][:60], v))
     return ' & '.join(parts)
+
+
+def same_bool(test, ref_src, interp=None, max_rows=4096):
+    """Truth-table equality of the boolean expression `test` and the reference expression source `ref_src` over
+    their canonical atoms (comparisons are normalised: `0 > x` and `x < 0` are one atom).  Names are compared as
+    written; pass expressions from the same function so that locals coincide."""
+    class _Dummy:
+        pass
+    it = interp
+    if it is None:
+        it = Interp.__new__(Interp)
+        it.atoms = {}
+    ref = ast.parse(ref_src, mode='eval').body if isinstance(ref_src, str) else ref_src
+    stack = [{}]
+    n = 0
+    while stack:
+        val = stack.pop()
+        try:
+            a = Interp.truth(it, test, val)
+            b = Interp.truth(it, ref, val)
+        except _Need as need:
+            for dv in need.domain:
+                v2 = dict(val)
+                v2[need.key] = dv
+                stack.append(v2)
+            continue
+        n += 1
+        if a != b or n > max_rows:
+            return False
+    return True
